@@ -465,6 +465,11 @@ func runCheck(spec *propSpec, tier string) int {
 	fuzzExecs, fuzzInteresting := int64(-1), int64(0)
 	if tier == "thorough" && spec.FuzzTime > 0 && len(violations) == 0 {
 		os.RemoveAll(filepath.Join(root, "props", "testdata", "fuzz"))
+		// the fuzz target has one name for all properties: start from an empty cached corpus so that one
+		// property's inputs are not replayed as another's
+		if gc, err := exec.Command("go", "env", "GOCACHE").Output(); err == nil && strings.TrimSpace(string(gc)) != "" {
+			os.RemoveAll(filepath.Join(strings.TrimSpace(string(gc)), "fuzz", "verif", "props", "FuzzProp"))
+		}
 		prefix := filepath.Join(work, "fuzz")
 		args := []string{"test", "-vet=off", "-run", "^$", "-fuzz", "^FuzzProp$", "-fuzztime", fmt.Sprintf("%ds", spec.FuzzTime), "./props"}
 		cmd := exec.Command("go", args...)
@@ -514,7 +519,7 @@ func runCheck(spec *propSpec, tier string) int {
 	if fuzzExecs >= 0 {
 		m.Counters["native_fuzz_execs"] = fuzzExecs
 		m.Counters["native_fuzz_interesting_inputs"] = fuzzInteresting
-		m.Notes = append(m.Notes, fmt.Sprintf("coverage-guided native fuzzing (go test -fuzz FuzzProp, %ds): %d executions, corpus of %d interesting inputs", spec.FuzzTime, fuzzExecs, fuzzInteresting))
+		m.Notes = append(m.Notes, fmt.Sprintf("coverage-guided native fuzzing (go test -fuzz FuzzProp, %ds; byte-level where the property has a byte form, otherwise through its generator with rapid.MakeFuzz): %d executions, corpus of %d interesting inputs", spec.FuzzTime, fuzzExecs, fuzzInteresting))
 	}
 	requested := int64(perShard * ts.Shards)
 	if m.Evaluations < requested*9/10 && len(violations) == 0 {
